@@ -24,6 +24,8 @@ From WG Require Import Transform.Pipelines.
 From WG Require Import PMF.Sched.
 From WG Require Import PMF.Ord.
 From WG Require Import BV.Access.
+From WG Require Import Algo.PageRankQ.
+From WG Require Import Algo.PageRankStatements.
 
 Extraction Language OCaml.
 
@@ -256,4 +258,22 @@ Extraction "model.ml"
   zip_nodes
   labs
   succs
+  pr_solve
+  residual_zero
+  certified
+  pr_iterate
+  sweep
+  l1dist
+  dangling_rank
+  vecf
+  predf
+  Qred
+  Qle_bool
+  Qeq_bool
+  Qabs.Qabs
+  Qplus
+  Qminus
+  Qmult
+  Qdiv
+  sumn
 .
